@@ -3,7 +3,9 @@
 Two halves (DESIGN.md 4.3):
  * proof: Model/PFileRead.lean (the utilities' reader loop) with the theorems of Props/C03.lean; tied to the
    real plist/pbind/p2bin/p2hex by running them on all truncations / field edits / bit flips of small code files
-   and comparing exit status with the model's classification (B) and with the SPEC's allowed set (C).
+   and comparing exit status *and the format-error text* with the model's classification (B: accepted -> 0, every
+   error class -> 3 with its message, 2 only where the probed `errno` of the tool is stale) and the status with the
+   SPEC's allowed set (C).  There is no input the model declines to predict.
  * exploration (labelled so): grammar-generated statements for the global pseudo instructions with boundary
    arguments, mutated golden sources, raw bytes, random images for dasl; oracle = documented exit status, never a
    signal / sanitizer report / time-out.  Thorough tier uses the clang-14 ASan+UBSan build.
@@ -345,6 +347,18 @@ def gen_raw(rng, tier):
             data = b"".join(rng.choice(toks) + rng.choice([b" ", b"\t", b"", b"\n"]) for _ in range(rng.randrange(1, 120)))
             op = "tokens"
         cases.append(dict(kind="asl", cls="raw", op=op, src=data, tag="raw:%s:%d" % (op, i)))
+    # incomplete / over-long / stray UTF-8 sequences where asl converts case in place (labels, symbol references, macro and
+    # parameter names, upstring/lowstring arguments, case-insensitive mode): NLS_UpString / NLS_LowString (the harness' locale is C;
+    # asl's own code page may still be UTF-8)
+    leads = [b"\xc3", b"\xe2\x82", b"\xf0\x9f\x98", b"\xf6", b"\xff", b"\xc3\xa4", b"\xe2\x82\xac", b"\x80", b"\xc0\x80", b"\xf8\x88\x80\x80\x80", b"\xed\xa0\x80"]
+    tmpls = [b"%s", b"%s:", b"a%s", b"a%s:\tnop", b"\tdb\t%s", b"x\tequ\tupstring(\"a%s\")", b"x\tequ\tlowstring(\"%s\")", b"m%s\tmacro p%s\n\tdb p%s\n\tendm\n\tm%s 1",
+             b"\tdb\t\"%s", b"\tdb\t'%s'", b"\tifdef a%s\n\tendif", b"\tsection s%s\n\tendsection", b"x%s\tset\t1\n\tdb\tx%s", b";%s"]
+    for i in range(14 if tier == "quick" else 240):
+        t = rng.choice(tmpls)
+        l = rng.choice(leads)
+        body = t.replace(b"%s", l) + rng.choice([b"", b"\n", b"\r\n"])
+        data = rng.choice([b"", b"\tcpu 68000\n", b"\tcpu z80\n"]) + body
+        cases.append(dict(kind="asl", cls="raw", op="utf8", src=data, tag="raw:utf8:%d" % i, flags=rng.choice([[], [], ["-U"]])))
     return cases
 
 
@@ -377,7 +391,6 @@ ASL_CLASSES = [
     ("getsymsection-empty-name", rb"", {"san"}, rb"stack-buffer-(under|over)flow[^\n]*\n(.*\n)?[^\n]*in GetSymSection"),
     ("function-call-more-than-3-args", rb"\w\s*\((?:[^()\n]|\([^()\n]*\))*,(?:[^()\n]|\([^()\n]*\))*,(?:[^()\n]|\([^()\n]*\))*,", {"san", "sig11", "sig6"}, rb"EvalStrExpression"),
     ("symbol-name-closing-bracket-without-opening", rb"\]", {"san", "sig11"}, rb"GetSymSection"),
-    ("source-utf8-lead-byte-overread", rb"[\xc0-\xff]", {"san"}, rb"in NLS_UpString"),
     # a string value that went through PUSHV (a symbol defined with a string, then PUSHV): shared heap buffer
     ("pushv-string-value-shared-buffer", rb"(?is)\b(?:set|equ)\s+[\"'].*\bpushv\b", {"san", "sig6", "sig11"}, rb"as_nonz_dynstr|double-free|heap-use-after-free"),
     ("binclude-word-granular-segment", rb"(?i)\bbinclude\b", {"san"}, rb"in CodeBINCLUDE"),
@@ -421,36 +434,6 @@ def rec_entry(a):
 
 def code_file(recs, creator=b"AS 1.42"):
     return b"\x89\x14" + b"".join(recs) + b"\x00" + creator
-
-
-def py_walk(data):
-    """header bytes met while walking the file the way SkipRecord would (harness plumbing for signatures only)"""
-    kinds = []
-    if len(data) < 2:
-        return kinds
-    i = 2
-    n = 0
-    while i < len(data) and n < 1000:
-        h = data[i]
-        kinds.append(h)
-        n += 1
-        i += 1
-        if h == 0:
-            break
-        if h == 0x80:
-            i += 4
-        elif h == 0x85:
-            if i + 12 > len(data):
-                break
-            r, e, s = (int.from_bytes(data[i + 4 * k:i + 4 * k + 4], "little") for k in range(3))
-            i += 12 + 16 * r + 16 * e + s
-        else:
-            if 0x81 <= h <= 0x84:
-                i += 3
-            if i + 6 > len(data):
-                break
-            i += 6 + int.from_bytes(data[i + 4:i + 6], "little")
-    return kinds
 
 
 def base_files(rng):
@@ -534,6 +517,7 @@ TOOLS = [
     ("plist", "plist", lambda p, o: ["-q", p]),
     ("pbind", "pbind", lambda p, o: [p, o + ".p"]),
     ("pbindf", "pbind", lambda p, o: ["-f", "0x7d", p, o + ".p"]),     # a filter that selects none of the generated records
+    ("pbindq", "pbind", lambda p, o: ["-q", p, o + ".p"]),             # quiet mode: no `errno = 0; printf(...)` between start-up and the record loop
     ("p2bin", "p2bin", lambda p, o: ["-r", "0-$fff", p, o + ".bin"]),
     ("p2bina", "p2bin", lambda p, o: [p, o + ".bin"]),
     ("p2hex", "p2hex", lambda p, o: ["-r", "0-$fff", p, o + ".hex"]),
@@ -553,10 +537,24 @@ def run_tool_case(bdir, wd, idx, tid, binary, mkargs, data, cpu_s):
     return oc
 
 
+FORMAT_MSGS = [(b"(invalid file header)", "ih"), (b"(invalid record header)", "irh"), (b"(invalid record length)", "irl"),
+               (b"(unexpected end of file)", "eof")]
+
+
+def tool_token(oc):
+    """outcome token for the driver: the exit status, for a format error (status 3) followed by the text FormatError printed
+    (tools.res / tools2.res, English catalogue: the harness runs with LC_ALL=C) - the model predicts the error class, not only the status"""
+    tok = oc.token()
+    if oc.kind == "exit" and oc.status == 3:
+        for text, code in FORMAT_MSGS:
+            if text in oc.err:
+                return tok + "/" + code
+    return tok
+
+
 def tool_sig(tid, kv, oc, data):
     """signature of a spec failure of a utility run (input class, not the property id)"""
     tok = oc.token()
-    kinds = py_walk(data)
     crash = oc.kind in ("signal", "san")
     longs = walk_long(data)
     div0 = tok == "sig8" or (tok == "san" and b"division by zero" in oc.err)
@@ -564,12 +562,8 @@ def tool_sig(tid, kv, oc, data):
         return "gran-zero"
     if crash and any(sg >= SEGCOUNT for sg, _g in longs) and tid in ("plist", "p2hex", "p2hexa"):
         return "segment-out-of-range"
-    if crash and tid == "plist" and 0x85 in kinds:
-        return "plist-relocinfo-unchecked"
-    if oc.kind == "timeout" and 0x85 in kinds and kv.get("model") == "badSeek":
-        return "relocinfo-negative-length-seeks-back"
-    if kv.get("model") == "shortRead" and (oc.kind == "timeout" or tok == "0" or crash):
-        return "short-read-undetected"
+    # repaired in /repo and therefore no longer attributed (a recurrence is a VIOLATION): plist-relocinfo-unchecked,
+    # relocinfo-negative-length-seeks-back, short-read-undetected; their witnesses stay in corpus/C03 as regression inputs
     return None
 
 
@@ -618,6 +612,21 @@ def probe_gran_guard(bdir, wd):
     return {t: int(r == "3") for t, r in res.items()}, res
 
 
+def probe_errno(bdir, wd):
+    """is `errno` stale (non-zero since the program's start-up: the message catalogue search leaves ENOENT) when the tool reads the magic /
+    when its first pass over the file reads a record header?  Then toolutils.c ChkIO turns the end of the file into an I/O error (status 2)
+    instead of the format error (status 3).  Environment flags of the reader model (errnoMagic, errnoLoop), per tool: a 1-byte file and a
+    file that consists of the magic."""
+    em, el, raw = {}, {}, {}
+    for k, (tid, binary, mk) in enumerate(TOOLS):
+        a = run_tool_case(bdir, wd, 920000 + 2 * k, tid, binary, mk, b"\x89", 2)
+        b = run_tool_case(bdir, wd, 920001 + 2 * k, tid, binary, mk, b"\x89\x14", 2)
+        em[tid] = int(a.token() == "2")
+        el[tid] = int(b.token() == "2")
+        raw[tid] = (a.token(), b.token())
+    return em, el, raw
+
+
 def probe_measure_always(bdir, wd):
     """does p2bin run its measuring pass (MeasureFile) although both -r bounds are given?  (it does since the repair of
     `explicit-range-ignores-granularity`: the pass yields MaxGran).  Seen from outside: a granularity-2 record of 4 words
@@ -659,6 +668,88 @@ def probe_slack(bdir, wd):
     out["p2bina"] = out["p2bin"]
     out["p2hexa"] = out["p2hex"]
     return out
+
+
+# --------------------------------------------------------------------------------------------
+# regression classes of repaired defects (dasl areas beyond the image, command lines longer than cmdarg.h MAXPARAM)
+
+def _maxparam():
+    try:
+        return int(re.search(r"#define\s+MAXPARAM\s+(\d+)", open(os.path.join(common.REPO, "cmdarg.h")).read()).group(1))
+    except (OSError, AttributeError):
+        return 256
+
+
+# (image, arguments behind `-cpu 6800`, documented status): 0 = listed, 4 = dasl refuses the parameter ("cannot read data for entry address")
+DASL_REGRESSION = [
+    (b"\x77", ["-binfile", "i.bin", "-entryaddress", "(0,2,MSB)"], 4),      # corpus/C03/dasl-truncated-insn.bin: the vector is not in the image
+    (b"\x77", ["-binfile", "i.bin", "-entryaddress", "0"], 0),              # the instruction's operand is not in the image
+    (b"\x77", ["-binfile", "i.bin", "-entryaddress", "$ffff"], 0),          # entry outside the image
+    (b"", ["-binfile", "i.bin", "-entryaddress", "0"], 0),                   # empty image
+    (b"", ["-binfile", "i.bin", "-entryaddress", "(0,2,MSB)"], 4),
+    (b"\x77\x01", ["-binfile", "i.bin", "-entryaddress", "(0,2,MSB)"], 0),  # vector inside, its target outside the image
+    (b"\x77\x01", ["-binfile", "i.bin", "-entryaddress", "(1,2,LSB)"], 4),  # vector straddles the end of the image
+    (b"\x77", ["-binfile", "i.bin@$fff0", "-entryaddress", "($fff0,2,MSB)"], 4),
+]
+
+
+def gen_dasl_areas(seed, n):
+    """entry addresses / vectors around both ends of a short image: the listed area begins before, ends behind or lies outside of what was loaded"""
+    out = []
+    for i in range(n):
+        r = common.rng_for(seed, "C03/dasl-area/%d" % i)
+        ln = r.choice([0, 1, 1, 2, 2, 3, 4, 6])
+        img = bytes(r.choice([0x77, 0x7e, 0xbd, 0x20, 0x01, 0x00, 0xff, 0x39, r.randrange(256)]) for _ in range(ln))
+        org = r.choice([0, 0, 0x10, 0xfffe, 0xfff0])
+        args = ["-cpu", r.choice(["6800", "6802", "87C00", "4004"]), "-binfile", "i.bin" + ("@$%x" % org if org else "")]
+        for _ in range(r.choice([1, 1, 2, 3])):
+            a = (org + r.randrange(-2, ln + 3)) & 0xffff
+            if r.random() < 0.5:
+                args += ["-entryaddress", "$%x" % a]
+            else:
+                args += ["-entryaddress", "($%x,%d,%s)" % (a, r.choice([1, 2, 2, 4]), r.choice(["MSB", "LSB"]))]
+        out.append((img, args))
+    return out
+
+
+CMDLINE_TOOLS = ["plist", "pbind", "p2bin", "p2hex", "alink", "dasl", "asl"]
+
+
+def gen_cmdlines(seed, tier, maxparam):
+    """(tool, parameter list, expected status) - command lines around and far beyond cmdarg.h MAXPARAM parameters.  Up to MAXPARAM parameters
+    every tool processes them (status 0); one more is a command line error: the utilities' ParamError exits with 1, asl and dasl with 4."""
+    r = common.rng_for(seed, "C03/cmdline")
+    counts = [maxparam - 1, maxparam, maxparam + 1, 300] + ([] if tier == "quick" else [maxparam + 2, 2 * maxparam, 1000, r.randrange(maxparam + 2, 3000)])
+    out = []
+    for tool in CMDLINE_TOOLS:
+        for n in counts:
+            if tool == "plist":
+                a = ["in.p"] * n
+            elif tool in ("pbind", "p2bin", "p2hex", "alink"):
+                a = ["in.p"] * (n - 1) + ["out.x"]
+            elif tool == "dasl":
+                a = ["-cpu", "6800", "-binfile", "i.bin"] + ["-h"] * ((n - 4) % 2) + ["-entryaddress", "0"] * ((n - 4) // 2)
+            else:
+                a = [r.choice(["-q", "-L", "-u", "-x"]) for _ in range(n - 1)] + ["t.asm"]
+            if len(a) != n:
+                continue
+            exp = 0 if n <= maxparam else (4 if tool in ("dasl", "asl") else 1)
+            out.append((tool, a, exp))
+    return out
+
+
+def run_cmdline_case(bdir, wd, idx, tool, a):
+    d = os.path.join(wd, "c%d" % idx)
+    os.makedirs(d, exist_ok=True)
+    with open(os.path.join(d, "in.p"), "wb") as fh:
+        fh.write(code_file([rec_short(0x51, 0, b"\x01\x02")], b"AS"))
+    with open(os.path.join(d, "i.bin"), "wb") as fh:
+        fh.write(b"\x01\x39")
+    with open(os.path.join(d, "t.asm"), "wb") as fh:
+        fh.write(b"\tcpu 6800\n\tnop\n")
+    oc = run_limited(bdir, tool, a, d, "r", 5, fsize_mb=16)
+    subprocess.call(["rm", "-rf", d])
+    return oc
 
 
 def parallel(fn, items, workers=4):
@@ -755,6 +846,9 @@ def run(args):
         slack = probe_slack(bdir, wd)
         meas_always = probe_measure_always(bdir, wd)
         notes.append("length-test probe (bytes wanted behind a data record): %s" % slack)
+        em, el, eraw = probe_errno(bdir, wd)
+        notes.append("stale-errno probe (status on a 1-byte file, on a magic-only file; 2 = ChkIO reports the start-up errno): %s" % eraw)
+        guard = {t: guard[t] + 2 * em[t] + 4 * el[t] for t in guard}
         files = []
         for f in sorted(os.listdir(cdir)) if os.path.isdir(cdir) else []:
             if f.endswith(".p"):
@@ -767,7 +861,7 @@ def run(args):
                 if fl == "hooks" and len(flavours) > 1 and fc["cls"] not in ("corpus", "boundary", "truncation", "valid"):
                     continue  # thorough: the plain build repeats only the structured part
                 for (tid, binary, mk) in TOOLS:
-                    if tier == "quick" and tid in ("p2bina", "p2hexa", "p2hex", "p2bin") and fc["cls"] in ("field-edit", "bit-flip", "truncation") \
+                    if tier == "quick" and tid in ("p2bina", "p2hexa", "p2hex", "p2bin", "pbindq") and fc["cls"] in ("field-edit", "bit-flip", "truncation") \
                             and fc["base"] not in ("two-rec-entry", "gran2-gran4", "random"):
                         continue
                     jobs.append((fi, tid, binary, mk))
@@ -785,7 +879,7 @@ def run(args):
                     continue
                 jobs2.append(j)
             ocs = parallel(lambda kj: run_tool_case(bd, wd, kj[0], kj[1][1], kj[1][2], kj[1][3], files[kj[1][0]]["data"], cpu_tool), list(enumerate(jobs2)))
-            reqs = ["%s %d %d %s %s" % (model_tool(tid, meas_always), guard[tid], slack[tid], oc.token(), common.hexs(files[fi]["data"]) or "-") for (fi, tid, _b, _m), oc in zip(jobs2, ocs)]
+            reqs = ["%s %d %d %s %s" % (model_tool(tid, meas_always), guard[tid], slack[tid], tool_token(oc), common.hexs(files[fi]["data"]) or "-") for (fi, tid, _b, _m), oc in zip(jobs2, ocs)]
             answers = common.driver("c03", reqs, timeout=1800) if drv_ok and reqs else []
             for (fi, tid, binary, mk), oc, ans in zip(jobs2, ocs, answers):
                 fc = files[fi]
@@ -808,7 +902,7 @@ def run(args):
                     sig = tool_sig(tid, kv, oc, fc["data"])
                     spec_fail.append(dict(sig=sig, why="utility outcome outside the documented/allowed statuses for this file", **info))
                 elif kv.get("corr") == "0":
-                    corr_fail.append(dict(why="exit status differs from the reader model's classification (status still allowed by the spec)", **info))
+                    corr_fail.append(dict(why="exit status / format-error text differs from the reader model's classification (status still allowed by the spec)", **info))
 
         # ------------------------------------------------------------------ p2bin -s on an empty image, dasl on random images
         extra = []
@@ -852,16 +946,68 @@ def run(args):
                 bump(dist["by_class"], "dasl")
                 bump(dist["tool_outcomes"], "%s:dasl:%s" % (fl, oc.token()))
                 if not (oc.kind == "exit" and oc.status in TOOL_OK | {4}):
-                    dsig = "dasl-entry-outside-image" if ("-entryaddress" in a and oc.kind in ("timeout", "san", "signal")) else None
-                    spec_fail.append(dict(sig=dsig, tag="dasl", tool="dasl", build=fl, args=a, image=img.hex(), outcome=oc.token(), why="dasl did not end with a documented status",
+                    spec_fail.append(dict(sig=None, tag="dasl", tool="dasl", build=fl, args=a, image=img.hex(), outcome=oc.token(), why="dasl did not end with a documented status",
                                           stderr=oc.err.decode("latin-1")[-1200:]))
+
+            t_rg = time.time()
+            # areas that extend beyond the loaded image (regression inputs of the repaired `dasl-entry-outside-image` with their documented
+            # status, and generated entry addresses / vectors around both ends of short images)
+            def dasl_fixed(job):
+                i, (img, a) = job
+                d = os.path.join(wd, "e%d" % i)
+                os.makedirs(d, exist_ok=True)
+                open(os.path.join(d, "i.bin"), "wb").write(img)
+                oc = run_limited(bd, "dasl", a, d, "r", 3, fsize_mb=16)
+                subprocess.call(["rm", "-rf", d])
+                return oc
+            areas = [(img, ["-cpu", "6800"] + a, exp) for img, a, exp in DASL_REGRESSION] + \
+                    [(img, a, None) for img, a in gen_dasl_areas(args.seed, 24 if tier == "quick" else 400)]
+            for (img, a, exp), oc in zip(areas, parallel(dasl_fixed, list(enumerate((x[0], x[1]) for x in areas)))):
+                dist["tool_runs"] += 1
+                bump(dist["by_class"], "dasl-area")
+                bump(dist["tool_outcomes"], "%s:dasl-area:%s" % (fl, oc.token()))
+                distinct.add(("dasl", img, tuple(a)))
+                info = dict(tag="dasl-area", tool="dasl", build=fl, args=a, image=img.hex(), outcome=oc.token(), stderr=oc.err.decode("latin-1")[-1200:])
+                if not (oc.kind == "exit" and oc.status in TOOL_OK | {4}):
+                    spec_fail.append(dict(sig=None, why="dasl did not end with a documented status on an area that extends beyond the loaded image", **info))
+                elif exp is not None and oc.status != exp:
+                    corr_fail.append(dict(why="dasl regression input: documented status %d expected" % exp, **info))
+
+            # command lines around / beyond cmdarg.h MAXPARAM parameters, every program
+            maxparam = _maxparam()
+            cl = gen_cmdlines(args.seed, tier, maxparam)
+            for (tool, a, exp), oc in zip(cl, parallel(lambda ij: run_cmdline_case(bd, wd, ij[0], ij[1][0], ij[1][1]), list(enumerate(cl)))):
+                dist["tool_runs"] += 1
+                bump(dist["by_class"], "cmdline")
+                bump(dist["tool_outcomes"], "%s:cmdline-%s:%s" % (fl, tool, oc.token()))
+                distinct.add(("cmdline", tool, len(a)))
+                info = dict(tag="cmdline:%s:%d" % (tool, len(a)), tool=tool, build=fl, nargs=len(a), argv=a, outcome=oc.token(),
+                            stderr=oc.err.decode("latin-1")[-800:])
+                if not (oc.kind == "exit" and oc.status in (ASL_OK | {1, 4} if tool in ("asl", "dasl") else TOOL_OK)):
+                    spec_fail.append(dict(sig=None, why="%d command line parameters (MAXPARAM = %d): no documented status" % (len(a), maxparam), **info))
+                elif oc.status != exp:
+                    corr_fail.append(dict(why="%d command line parameters (MAXPARAM = %d): status %d expected (cmdarg.c ProcessCMD)" % (len(a), maxparam, exp), **info))
+
+            # alink reads code files with the same ReadRecordHeader / ReadRelocInfo (exploration: documented status only)
+            afiles = [fc for fc in files if fc["cls"] in ("corpus", "boundary", "valid", "truncation") and fc["base"] in ("-", "two-rec-entry", "reloc-kinds")]
+            aocs = parallel(lambda kf: run_tool_case(bd, wd, 700000 + kf[0], "alink", "alink", lambda p, o: [p, o + ".p"], kf[1]["data"], cpu_tool), list(enumerate(afiles)))
+            for fc, oc in zip(afiles, aocs):
+                dist["tool_runs"] += 1
+                bump(dist["by_class"], "alink")
+                bump(dist["tool_outcomes"], "%s:alink:%s" % (fl, oc.token()))
+                distinct.add(("alink", fc["data"]))
+                if not (oc.kind == "exit" and oc.status in TOOL_OK):
+                    spec_fail.append(dict(sig=None, tag="alink:%s:%s:%s" % (fc["cls"], fc["op"], fc["base"]), tool="alink", build=fl, file=fc["data"].hex(), outcome=oc.token(),
+                                          why="alink did not end with a documented status", args=["in.p", "out.p"], stderr=oc.err.decode("latin-1")[-1200:]))
+            dist["regression_classes_wall_s"] = round(time.time() - t_rg, 2)
 
     if os.environ.get("C03_DUMP"):
         json.dump(dict(spec=spec_fail, corr=corr_fail, proof=proof_problems), open(os.environ["C03_DUMP"], "w"), indent=1, default=str)
     res.level = "proof"
     res.coverage = common.proof_coverage(audit, PROP, [
         "translate/tables.py (file-format constants, Granularity table, family table, SegCount)",
-        "correspondence: real plist/pbind/p2bin/p2hex exit status vs Model/PFileRead classification (differential test)",
+        "correspondence: real plist/pbind/p2bin/p2hex exit status and FormatError text vs Model/PFileRead classification (differential test; "
+        "environment flags 'errno stale at the magic / in the record loop', 'granularity guard', 'bytes wanted behind a data record' probed per tool)",
         "correspondence: real asl vs Model/SymStack (PUSHV/POPV histories: exit status + printed events, `asl -n -E !1`) and vs Model/BInclude "
         "(exit status, error numbers, code-file bytes), SPEC judgement by Spec/SymStack + Spec/BInclude on the real output (driver modes c03stk / c03bin)",
         "EXPLORATION (not proof): asl/dasl robustness is only searched with generated inputs%s" % (" under clang-14 ASan+UBSan" if tier == "thorough" else " (plain build; sanitizer build in the thorough tier)")])
@@ -869,7 +1015,9 @@ def run(args):
         partial=True,
         evaluations=dist["asl_runs"] + dist["tool_runs"], distinct_nontrivial=len(distinct),
         rule="one evaluation = one process run (asl on a source / a utility on a code file); distinct = distinct input bytes (per tool); "
-             "grammar = %d global pseudo-instruction templates x boundary arguments x CPU x label; files = all truncations + field edits + bit flips of %d base files + boundary + random; "
+             "grammar = %d global pseudo-instruction templates x boundary arguments x CPU x label; files = all truncations + field edits + bit flips of %d base files + boundary + random "
+             "(7 tool variants incl. pbind -f / -q, p2bin / p2hex with explicit and automatic range; alink: documented status only); dasl: random images + areas around both ends of short "
+             "images + regression inputs with their documented status; command lines of MAXPARAM-1 .. 300 (thorough: .. 3000) parameters for plist / pbind / p2bin / p2hex / alink / dasl / asl; "
              "histories = generated PUSHV/POPV programs (1-3 named stacks + default stack, variables / constants / undefined symbols, refused pops, pops from empty and "
              "non-existent stacks, REPT / IF / macro wrappers, case-sensitive runs), distinct by source text; BINCLUDE = file sizes 0/1/255/256/257/1000 x offset class "
              "{none, 0, inside, = size, > size, negative} x length class {none, 0, inside, to the end, beyond, negative, huge} x target / segment / origin / wrapper, plus "
@@ -895,6 +1043,22 @@ def replay(args):
             oc = run_asl_case(bdir, wd, 0, c, 10)
             print("asl (%s build) ->" % flavour, oc.token())
             print(oc.err.decode("latin-1")[-2000:])
+        elif "argv" in d and d.get("tool") in CMDLINE_TOOLS:
+            oc = run_cmdline_case(bdir, wd, 0, d["tool"], d["argv"])
+            print("%s with %d parameters (%s build) -> %s" % (d["tool"], len(d["argv"]), flavour, oc.token()))
+            print(oc.err.decode("latin-1")[-1500:])
+        elif "image" in d and d.get("tool") == "dasl":
+            dd = os.path.join(wd, "d")
+            os.makedirs(dd, exist_ok=True)
+            open(os.path.join(dd, "i.bin"), "wb").write(bytes.fromhex(d["image"]))
+            oc = run_limited(bdir, "dasl", d["args"], dd, "r", 5, fsize_mb=16)
+            print("dasl %s (%s build) -> %s" % (" ".join(d["args"]), flavour, oc.token()))
+            print(oc.out.decode("latin-1")[-1500:])
+            print(oc.err.decode("latin-1")[-1500:])
+        elif "file" in d and d.get("tool") == "alink":
+            oc = run_tool_case(bdir, wd, 0, "alink", "alink", lambda p, o: [p, o + ".p"], bytes.fromhex(d["file"]), 3)
+            print("alink in.p out.p (%s build) -> %s" % (flavour, oc.token()))
+            print(oc.err.decode("latin-1")[-1500:])
         elif "file" in d and d.get("tool") in [t[0] for t in TOOLS]:
             tid, binary, mk = [t for t in TOOLS if t[0] == d["tool"]][0]
             data = bytes.fromhex(d["file"])
@@ -904,5 +1068,7 @@ def replay(args):
             guard, _ = probe_gran_guard(bdir, wd)
             slack = probe_slack(bdir, wd)
             meas_always = probe_measure_always(bdir, wd)
-            print(common.driver("c03", ["%s %d %d %s %s" % (model_tool(tid, meas_always), guard[tid], slack[tid], oc.token(), data.hex() or "-")])[0])
+            em, el, _ = probe_errno(bdir, wd)
+            guard = {t: guard[t] + 2 * em[t] + 4 * el[t] for t in guard}
+            print(common.driver("c03", ["%s %d %d %s %s" % (model_tool(tid, meas_always), guard[tid], slack[tid], tool_token(oc), data.hex() or "-")])[0])
     return 0
